@@ -12,6 +12,7 @@ from ovnitrace import Scratch
 
 PID = "C09"
 KEY_JSON_FIRST = "tmpdir-json-before-obs"
+REPORTED = set()
 
 # (name, OVNI_TMPDIR mode, readdir order spec or None = what the file system gives)
 CONFIGS = [("direct", False, None), ("tmp-obs-first", True, ".:oj"), ("tmp-json-first", True, ".:jo"),
@@ -143,7 +144,10 @@ def run_config(res, prep, h, drv, emu, d, cfg, scripts, kills=None):
             viol.append((0 if p1 else 1, key, "crash consistency violated by libovni (%s, readdir order %s, kill before call %d = %s): %s" % (
                 name, order_seen or "-", n, ref[k].calls[n - 1] if n - 1 < len(ref[k].calls) else "?", "; ".join(probs)),
                 replay_text(cfg, n, sc) + "# " + "\n# ".join(probs)))
-    for _, key, text, rep in sorted(viol, key=lambda v: v[0]):
+    for kind, key, text, rep in sorted(viol, key=lambda v: v[0]):
+        if (key, kind) in REPORTED:      # one report per key and kind of failure
+            continue
+        REPORTED.add((key, kind))
         res.violation(key, text, rep)
     for n, sub, idx, runs in results:
         shutil.rmtree(sub, ignore_errors=True)
